@@ -508,7 +508,7 @@ Section TRIE.
   (** number of stored tuples according to the representation (fuel for loops only) *)
   Fixpoint trie_weight (d : nat) : trie d -> nat :=
     match d return trie d -> nat with
-    | O => fun t => (64 * length (sa_cells t))%nat
+    | O => fun t => fold_right (fun e acc => (N.to_nat (popcount (snd e)) + acc)%nat) 0%nat (sa_cells t)
     | S d' => fun t => fold_right (fun e acc => (trie_weight d' (snd e) + acc)%nat) 0%nat (sa_cells t)
     end.
 
